@@ -62,7 +62,21 @@ fn dense_ranks(vals: &[f64]) -> Vec<i64> {
     ranks
 }
 
-/// 0: strictly below, 1: strictly above, 2: inside the tie band
+/// 0: strictly below, 1: strictly above, 2: inside the tie band. On lattices (exact small
+/// integers) there is no band: equal means equal, i.e. "not strictly below" (1).
+fn cmp_band_x(x: f64, thr: f64, exact: bool) -> u8 {
+    if exact {
+        return if x < thr { 0 } else { 1 };
+    }
+    cmp_band(x, thr)
+}
+/// near/far decision of an extension: 0 = within one step (d <= maxd), 1 = beyond, 2 = in the band
+fn far_of(d: f64, maxd: f64, exact: bool) -> u8 {
+    if exact {
+        return if d > maxd { 1 } else { 0 };
+    }
+    cmp_band(d, maxd)
+}
 fn cmp_band(x: f64, thr: f64) -> u8 {
     if (x - thr).abs() <= tol::REL_TIE * x.abs().max(thr.abs()) {
         2
@@ -216,8 +230,9 @@ impl<'a, S: Clone + Bits> Annot<'a, S> {
         let minr = dr.iter().cloned().min().unwrap_or(0);
         let argmin: Vec<usize> = (0..n).filter(|i| dr[*i] == minr).collect();
         let maxd = self.params.maxd;
+        let exact = g.mode() == "lattice";
         let steer = |m: usize| -> (u8, S) {
-            let far = cmp_band(ds[m], maxd);
+            let far = far_of(ds[m], maxd, exact);
             let s = if ds[m] > maxd { g.interp(&tree[m].s, tgt, maxd / ds[m]) } else { tgt.clone() };
             (far, s)
         };
@@ -241,7 +256,7 @@ impl<'a, S: Clone + Bits> Annot<'a, S> {
                     }
                     best
                 };
-                let far = if near < n { cmp_band(ds[near], maxd) } else { 2 };
+                let far = if near < n { far_of(ds[near], maxd, exact) } else { 2 };
                 let (step, gd, orc, cov, len) = if near < n {
                     let a = &tree[near].s;
                     let step = g.dist(a, &new);
@@ -271,7 +286,7 @@ impl<'a, S: Clone + Bits> Annot<'a, S> {
                     all_blocked &= o == BLOCKED;
                 }
                 let orc = if all_free && !zero { FREE } else if all_blocked { BLOCKED } else { UNKNOWN };
-                let far = argmin.first().map(|m| cmp_band(ds[*m], maxd)).unwrap_or(2);
+                let far = argmin.first().map(|m| far_of(ds[*m], maxd, exact)).unwrap_or(2);
                 json!({"tr": tr + 1, "tgt": tgt_sid, "dr": dr, "far": far, "add": false, "near": 0,
                        "new": 0, "nv": true, "isq": false, "step": 0, "gd": 0, "cov": [], "len": 0, "orc": orc, "n": n})
             }
@@ -283,12 +298,13 @@ impl<'a, S: Clone + Bits> Annot<'a, S> {
         // the rewires have NOT yet been applied to it.
         let g = self.g;
         let newn = self.trees[0][new_idx].clone();
+        let exact = g.mode() == "lattice";
         let n = pre.len();
         let rad = self.params.radius;
         let dnew: Vec<f64> = pre.iter().map(|nd| g.dist(&newn.s, &nd.s)).collect();
         let inr: Vec<u8> = dnew
             .iter()
-            .map(|d| match cmp_band(*d, rad) {
+            .map(|d| match cmp_band_x(*d, rad, exact) {
                 0 => 1,
                 1 => 0,
                 _ => 2,
@@ -310,7 +326,7 @@ impl<'a, S: Clone + Bits> Annot<'a, S> {
         let mut rwo = Vec::new();
         for i in 0..n {
             let via = newn.c + dnew[i];
-            let s = match cmp_band(via, pre[i].c) {
+            let s = match cmp_band_x(via, pre[i].c, exact) {
                 0 => 1u8,
                 1 => 0u8,
                 _ => 2u8,
@@ -681,7 +697,7 @@ impl<'a, S: Clone + Bits> Annot<'a, S> {
                 for i in 0..me {
                     let other = &road[i].0;
                     let d = self.g.dist(&q, other);
-                    let inr = match cmp_band(d, self.params.radius) {
+                    let inr = match cmp_band_x(d, self.params.radius, self.g.mode() == "lattice") {
                         0 => 1,
                         1 => 0,
                         _ => 2,
@@ -723,7 +739,7 @@ impl<'a, S: Clone + Bits> Annot<'a, S> {
             if let Some(st) = problems[i].start.clone() {
                 for (m, _) in &road {
                     let d = self.g.dist(&st, m);
-                    let inr = match cmp_band(d, self.params.radius) {
+                    let inr = match cmp_band_x(d, self.params.radius, self.g.mode() == "lattice") {
                         0 => 1,
                         1 => 0,
                         _ => 2,
